@@ -240,7 +240,7 @@ def vod_templates():
     return out
 
 
-def ch_e2e(ctx) -> Channel:
+def ch_e2e(ctx, cases=None) -> Channel:
     import appboot
     import segchecks
     import segwalk
@@ -255,8 +255,9 @@ def ch_e2e(ctx) -> Channel:
     rng = ctx.rng("vod_e2e")
     now = datetime.datetime(2023, 5, 1, 12, 0, 3, tzinfo=datetime.timezone.utc)
     temps = vod_templates()
+    given = cases
     cases = []
-    for stream in ("bbb", "tears", "syn1", "syn2", "syn3", "syn4", "syn5"):
+    for stream in ("bbb", "tears", "syn1", "syn2", "syn3", "syn4", "syn5", "syn6", "syn7"):
         for name, mode in temps:
             opts = []
             if rng.random() < .5 and mode == "vod":
@@ -269,9 +270,17 @@ def ch_e2e(ctx) -> Channel:
     if not ctx.thorough:
         rng.shuffle(cases)
         cases = cases[:22]
+    if given is not None:
+        cases = given
     with appboot.Clock(now):
-        for stream, url, mode in cases:
+        for ci, (stream, url, mode) in enumerate(cases):
             trk = segchecks.tracks(app, stream)
+            if ci % 2 == 0:
+                # history: the same process has just served a *live* manifest of the same stream (timeline and
+                # number addressing); nothing of it may reach the static manifest
+                for lq in ("timeline=1&depth=30", "depth=30"):
+                    rl = client.get(f"/dash/live/{stream}/hand_made.mpd?{lq}")
+                    ch.count(f"history:live-manifest-status={rl.status_code}")
             r = client.get(url)
             ch.count(f"manifest:{url.split('/')[4].split('?')[0]}:{mode}:status={r.status_code}")
             if r.status_code != 200:
@@ -469,15 +478,23 @@ def search(ctx, disagreements):
     c2 = types.SimpleNamespace(tier="thorough", thorough=True, seed=ctx.seed + 15485863,
                                rng=lambda name: common.rng_for(ctx.seed + 15485863, name),
                                scale=lambda q, t: t if ctx.thorough else max(q, t // 5))
+    open_f = [f for f in common.load_ledger() if f.get("property") == PROP and f.get("status") == "open"]
     for fn in (ch_pure, ch_boxindex, ch_e2e):
         ch = fn(c2)
-        if ch.oracle_failures:
-            return ch.oracle_failures[0]
+        for x in ch.oracle_failures:
+            if not any(matches_finding(f, x) for f in open_f):
+                return x
     return None
 
 
 def replay(ctx, payload):
     f = payload.get("failure") or {}
+    if f.get("url", "").startswith("/dash/") and "kind" in f and "layout" not in f:
+        # an end-to-end failure: re-run that manifest through the channel (with the live-manifest history)
+        parts = f["url"].split("/")
+        ch = ch_e2e(ctx, cases=[(parts[3], f["url"], parts[2])])
+        same = [x for x in ch.oracle_failures if x.get("kind") == f.get("kind")]
+        return {"fails": bool(same), "observed": (same or ch.oracle_failures)[:2]}
     if "segment_url" in f:
         import appboot
         import segchecks
